@@ -189,6 +189,9 @@ fn main() {
         AI::MeasureCalib { sig: 0, payload: 0 },
         AI::MeasureCalib { sig: 1, payload: 0 },
         AI::MeasureCalib { sig: 0, payload: 2 },
+        // differs from sig 0 only in the NAME of the formal target; from sig 0 only in having one
+        AI::MeasureCalib { sig: 3, payload: 0 },
+        AI::MeasureCalib { sig: 4, payload: 0 },
         AI::Body { k: 0, qs: vec![0] },
     ];
     let maxlen = if args.thorough() { 4 } else { 3 };
@@ -263,9 +266,9 @@ fn main() {
         "instruction sequences; each is built 20x in-process by from_instructions, FromStr and (for a \
          split point) `+` of the two halves, and once by each of 3 child processes; serializations \
          compared byte for byte; the listing is compared in Coq with listing_spec. Exhaustive part: \
-         every sequence up to the stated length over an 11-instruction alphabet (3 distinct frames + \
-         a frame redefinition, 2 gate definitions + redefinition, 2 measure calibrations + \
-         redefinition, one gate). Random part: seeded sequences with 2-4 definitions of every kind. \
+         every sequence up to the stated length over a 13-instruction alphabet (3 distinct frames + \
+         a frame redefinition, 2 gate definitions + redefinition, measure calibrations differing in \
+         qubit / target name / target presence + a redefinition, one gate). Random part: seeded sequences with 2-4 definitions of every kind. \
          Non-trivial = contains a redefinition or two distinct frames.",
         true,
         serde_json::json!({"exhaustive_max_len": maxlen, "exhaustive_cases": n_ex, "random_cases": nrand,
